@@ -266,6 +266,14 @@ type c8panicObj struct{}
 
 func (c8panicObj) MarshalLogObject(zapcore.ObjectEncoder) error { panic("c8: marshaler bug") }
 
+// c8zoned: the simulated clock seen from another time zone.
+type c8zoned struct {
+	zapcore.Clock
+	loc *time.Location
+}
+
+func (z c8zoned) Now() time.Time { return z.Clock.Now().In(z.loc) }
+
 func runC08(c *Ctx) {
 	g, r := c.G, c.R
 	w := &c8world{c: c}
@@ -276,7 +284,7 @@ func runC08(c *Ctx) {
 	clk := zsim.NewSimClock(r, drawEpoch(g))
 	encCfgT := encCfg()
 	encCfgT.TimeKey = "ts"
-	encCfgT.EncodeTime = zapcore.ISO8601TimeEncoder
+	encCfgT.EncodeTime = []zapcore.TimeEncoder{zapcore.ISO8601TimeEncoder, zapcore.RFC3339TimeEncoder, zapcore.RFC3339NanoTimeEncoder, zapcore.EpochNanosTimeEncoder}[g.Weighted(3, 2, 2, 1)]
 	encCfgT.CallerKey = "caller"
 	encCfgT.EncodeCaller = zapcore.ShortCallerEncoder
 	encCfgT.StacktraceKey = "stack"
@@ -327,7 +335,13 @@ func runC08(c *Ctx) {
 	for i := 0; i < 3; i++ {
 		s := zsim.NewSimSink(r, fmt.Sprintf("other%d", i), 1+g.Draw(3), uint64(i)+21)
 		w.sinks = append(w.sinks, s)
-		opts := []zap.Option{zap.WithClock(clk), zap.AddStacktrace(zapcore.ErrorLevel), zap.ErrorOutput(zapcore.Lock(w.errOthers))}
+		// the other loggers live in other time zones: the same instants, rendered
+		// with another offset
+		var oclk zapcore.Clock = clk
+		if i > 0 {
+			oclk = c8zoned{clk, time.FixedZone("zone", []int{0, 5 * 3600, -8 * 3600}[i])}
+		}
+		opts := []zap.Option{zap.WithClock(oclk), zap.AddStacktrace(zapcore.ErrorLevel), zap.ErrorOutput(zapcore.Lock(w.errOthers))}
 		if i == 1 {
 			opts = append(opts, zap.AddCaller())
 		}
